@@ -32,6 +32,11 @@ type succ struct {
 
 type StepFn func(hist []int) (key string, enabled []int, ok bool)
 
+// StepTimeout is the time after which a single transition (replay of one history on a
+// fresh instance) is declared not to terminate.  Normal transitions take milliseconds
+// to a few seconds (an HTTP listener removal waits 5 s).
+var StepTimeout = 5 * time.Minute
+
 type BFSResult struct {
 	States, Transitions int64
 	Depth               int
@@ -94,14 +99,44 @@ func BFS(r *ev.Run, tag string, maxDepth, n int, deadline time.Time, step StepFn
 				part := filepath.Join(dir, fmt.Sprintf("part-%d-%d.json", depth, i))
 				b, _ := json.Marshal(parts[i])
 				os.WriteFile(in, b, 0o644)
+				hb := filepath.Join(dir, fmt.Sprintf("hb-%d-%d.json", depth, i))
 				cmd := exec.Command(os.Args[0], os.Args[1:]...)
-				cmd.Env = append(os.Environ(), "VERIF_BFS_TAG="+tag, "VERIF_BFS_IN="+in, "VERIF_BFS_OUT="+out, "VERIF_PARTIAL="+part, "GOMAXPROCS=2")
+				cmd.Env = append(os.Environ(), "VERIF_BFS_TAG="+tag, "VERIF_BFS_IN="+in, "VERIF_BFS_OUT="+out, "VERIF_PARTIAL="+part, "VERIF_BFS_HB="+hb, "GOMAXPROCS=2")
 				errf, _ := os.Create(filepath.Join(dir, fmt.Sprintf("err-%d-%d.txt", depth, i)))
 				cmd.Stdout, cmd.Stderr = errf, errf
-				werr := cmd.Run()
+				var werr error
+				hung := false
+				if err := cmd.Start(); err != nil {
+					werr = err
+				} else {
+					done := make(chan error, 1)
+					go func() { done <- cmd.Wait() }()
+					// a worker writes the history it is executing before every transition; a
+					// transition that has not finished after StepTimeout (orders of magnitude
+					// above a normal one) is reported as non-termination of that history
+				wait:
+					for {
+						select {
+						case werr = <-done:
+							break wait
+						case <-time.After(5 * time.Second):
+							if st, err := os.Stat(hb); err == nil && time.Since(st.ModTime()) > StepTimeout {
+								hung = true
+								cmd.Process.Kill()
+								<-done
+								break wait
+							}
+						}
+					}
+				}
 				errf.Close()
 				mu.Lock()
 				defer mu.Unlock()
+				if hung {
+					hb, _ := os.ReadFile(hb)
+					r.Violate("no-termination", fmt.Sprintf("a transition did not finish within %s: history %s", StepTimeout, string(hb)), map[string]any{"history_indices": string(hb)})
+					return
+				}
 				if werr != nil {
 					eb, _ := os.ReadFile(errf.Name())
 					tail := string(eb)
@@ -166,9 +201,14 @@ func bfsWorker(r *ev.Run, step StepFn) {
 	var nodes []Node
 	json.Unmarshal(b, &nodes)
 	var out []succ
+	hb := os.Getenv("VERIF_BFS_HB")
 	for _, nd := range nodes {
 		for _, op := range nd.Enabled {
 			h := append(append([]int{}, nd.Hist...), op)
+			if hb != "" {
+				hbb, _ := json.Marshal(h)
+				os.WriteFile(hb, hbb, 0o644)
+			}
 			k, en, ok := step(h)
 			out = append(out, succ{Hist: h, Key: k, Enabled: en, OK: ok})
 		}
